@@ -7,8 +7,9 @@ package protocols
 // (state 2n-1) and then requires state 2n. -------------------------------------------------------------------
 // The class body of the abstract writer (loop 0 prints the public write method of step i).
 //@ func writeAbstractWriter$1
-//@   property C07
+//@   property C07,C04,C15
 //@   requires p != nil
+//@   ensures embeds_own_schema: emitted("schema = r\"\"\"%s\"\"\"") == 1 && emittedArg("schema = r\"\"\"%s\"\"\"", 0, 0, string) == dsl.GetProtocolSchemaString(p, st)
 //@   ensures close_ends_trailing_stream: len(p.Sequence) > 0 && p.Sequence[len(p.Sequence)-1].IsStream() ==> emitted("if self._state == %d:\n") >= 1 && emittedArg("if self._state == %d:\n", 0, 0, int) == 2 * old(len(p.Sequence)) - 1
 //@   ensures close_requires_all_steps: emitted("if self._state != %d:\n") >= 1 && emittedArg("if self._state != %d:\n", 0, 0, int) == 2 * old(len(p.Sequence))
 //@   iteration 0: ends_previous_stream: i > 0 && p.Sequence[i-1].IsStream() ==> emitted("if self._state == %d:\n") == 1 && emittedArg("if self._state == %d:\n", 0, 0, int) == 2 * i - 1 && emittedArg("self._state = %d\n", 0, 0, int) == 2 * i
@@ -21,8 +22,9 @@ package protocols
 
 // The class body of the abstract reader (loop 0 prints the public read method of step i).
 //@ func writeAbstractReader$1
-//@   property C07
+//@   property C07,C04,C15
 //@   requires p != nil
+//@   ensures reader_shares_writer_schema: emitted("schema = %s.schema") == 1 && emittedArg("schema = %s.schema", 0, 0, string) == common.AbstractWriterName(p)
 //@   ensures close_requires_all_steps: emitted("if not self._skip_completed_check and self._state != %d:\n") == 1 && emittedArg("if not self._skip_completed_check and self._state != %d:\n", 0, 0, int) == 2 * old(len(p.Sequence))
 //@   iteration 0: guard_is_twice_index: emitted("if self._state != %d:\n") == 1 && emittedArg("if self._state != %d:\n", 0, 0, int) == 2 * i
 //@   iteration 0: error_names_this_step: emitted("self._raise_unexpected_state(%d)\n") == 1 && emittedArg("self._raise_unexpected_state(%d)\n", 0, 0, int) == 2 * i
